@@ -201,6 +201,29 @@ def rotation_centre_obligations(model, rep, fn, clause, rule="A"):
         if vv and len(vv) == 3:
             ok = all(vv[i].equals(dom.div(dom.add(t[i], _mkA(-1)), _mkA(2))) for i in range(3))
             det = "" if ok else f"rotation centre {vv!r} is not the array centre (n - 1) / 2"
+        # a shape that is sliced (`X.shape[-3:]`) belongs to an array that may carry leading axes (a stack of templates): the centre must be that of the
+        # last three axes there too
+        sliced = any(isinstance(x, _ast.Subscript) and isinstance(x.slice, _ast.Slice) and isinstance(x.value, _ast.Attribute) and x.value.attr == "shape"
+                     for x in _ast.walk(expr))
+        if ok and sliced:
+            class _D4(_AD):
+                def seed_field(self, interp, obj, name, node):
+                    return _Arr((self.sym("T"),) + t4)
+            dom4 = _D4(model, integer_syms={"r0", "r1", "r2", "T"}, positive_syms={"r0", "r1", "r2", "T"})
+            t4 = tuple(dom4.sym(k) for k in ("r0", "r1", "r2"))
+            env4 = {"np": _Ext("numpy")}
+            for x in _ast.walk(expr):
+                if isinstance(x, _ast.Name) and x.id not in ("np", "self"):
+                    env4[x.id] = _Arr((dom4.sym("T"),) + t4)
+            it4 = _Interp(model, dom4, depth=0)
+            try:
+                v4 = it4.eval(expr, dict(env4, **_self_env(it4, fn)), fn)
+            except Exception:
+                v4 = _TOP
+            vv4 = dom4.vec(v4) if v4 is not _TOP else None
+            if vv4 and len(vv4) == 3 and not all(vv4[i].equals(dom4.div(dom4.add(t4[i], _mkA(-1)), _mkA(2))) for i in range(3)):
+                ok = False
+                det = f"for a stack of shape (T, n0, n1, n2) the rotation centre is {vv4!r}, not the centre of the last three axes"
         rep.ob(rule, fn.anchor, "rotations are taken about the array centre (n - 1) / 2 (the same centre on both sides of the transform)", ok, det, node=c, fn=fn,
                clause=clause)
     return n
